@@ -674,7 +674,7 @@ def run_program(fl, env, wd, prog, opcode, sanit):
     nvm = os.path.join(wd, "p.nvm")
     c = sh([fl.nano_virt, src, "--emit-nvm", "-o", nvm], cpu=60, san=sanit, cwd=wd, env=env)
     if c.rc != 0 or not os.path.exists(nvm):
-        return dict(compile=c)
+        return dict(compile=c, vanished=not os.path.exists(fl.nano_virt))
     ops = os.path.join(wd, "ops.txt")
     e2 = dict(env)
     e2["NLVERIF_OPSTATS"] = ops
@@ -712,6 +712,7 @@ def judge(ctx, oc, fl, prog, res, tag):
         if len(data) <= 70000:
             files[name] = data
     if "compile" in res:
+        ctx.require(not res.get("vanished"), "the %s build disappeared from the cache while in use (pruned by a concurrent build)" % fl.name)
         oc.compile_fail += 1
         oc.bump("compile-failed")
         return
@@ -903,15 +904,6 @@ def run(ctx):
         env_p = controls(ctx, plain, sc, "plain")
         env_a = controls(ctx, asan, sc, "asan")
 
-        # ---- oracle 1: codec probe ------------------------------------------------------------------------
-        tot, shapes, pseed = codec(ctx, asan)
-        ctx.require(tot.get("cases", 0) >= ctx.n(20000, 1000000) * 0.9 or ctx.violations,
-                    "codec probe evaluated only %s cases" % tot.get("cases", 0))
-        if not ctx.violations:
-            ctx.require(tot.get("asan") == 1, "codec probe was not built with ASan")
-            for t in ("int", "float", "bool", "string", "array", "opaque", "void"):
-                ctx.require(tot.get(t, 0) > 100, "codec probe generated too few %s values" % t)
-
         # ---- oracle 2: CLI differential ---------------------------------------------------------------------
         cat = catalogue(thorough)
         all_pairs = set(c.pair() for c in cat)
@@ -980,15 +972,25 @@ def run(ctx):
             if key in ctx.open and key not in ctx.known_hit:
                 ctx.note("open finding %s did not reproduce in this run" % key)
 
-        # ---- sufficiency -------------------------------------------------------------------------------------
+        # ---- oracle 1: codec probe (after the differential; the cache entry is refreshed so that it is not pruned) ----
+        asan = build.get("asan")
+        tot, shapes, pseed = codec(ctx, asan)
+
+        # ---- sufficiency (a run that saw too little is inconclusive - unless it already found a violation, which stands) ----
         n_plain = oc_p.programs
-        ctx.require(oc_p.compile_fail == 0 and oc_a.compile_fail == 0, "%d generated programs did not compile" % (oc_p.compile_fail + oc_a.compile_fail))
-        ctx.require(n_plain >= ctx.n(50, 500), "only %d programs ran" % n_plain)
-        ctx.require(oc_p.unobservable + oc_a.unobservable <= max(2, n_plain // 50), "%d programs were not reproducible in-process" % (oc_p.unobservable + oc_a.unobservable))
-        ctx.require(oc_p.inproc_fail <= max(2, n_plain // 25), "%d programs did not complete in-process" % oc_p.inproc_fail)
         externs = sorted(set(p[0] for p in oc_p.pairs_both))
-        ctx.require(len(oc_p.pairs_both) >= ctx.n(150, 600) and len(externs) >= 40,
-                    "too few (extern, class) pairs executed in both modes: %d pairs, %d externs" % (len(oc_p.pairs_both), len(externs)))
+        if not ctx.violations:
+            ctx.require(tot.get("cases", 0) >= ctx.n(20000, 1000000) * 0.9, "codec probe evaluated only %s cases" % tot.get("cases", 0))
+            ctx.require(tot.get("asan") == 1, "codec probe was not built with ASan")
+            for t in ("int", "float", "bool", "string", "array", "opaque", "void"):
+                ctx.require(tot.get(t, 0) > 100, "codec probe generated too few %s values" % t)
+            ctx.require(oc_p.compile_fail == 0 and oc_a.compile_fail == 0, "%d generated programs did not compile" % (oc_p.compile_fail + oc_a.compile_fail))
+            ctx.require(n_plain >= ctx.n(50, 500), "only %d programs ran" % n_plain)
+            ctx.require(oc_p.unobservable + oc_a.unobservable <= max(2, n_plain // 50),
+                        "%d programs were not reproducible in-process or hit the watchdog" % (oc_p.unobservable + oc_a.unobservable))
+            ctx.require(oc_p.inproc_fail <= max(2, n_plain // 25), "%d programs did not complete in-process" % oc_p.inproc_fail)
+            ctx.require(len(oc_p.pairs_both) >= ctx.n(150, 600) and len(externs) >= 40,
+                        "too few (extern, class) pairs executed in both modes: %d pairs, %d externs" % (len(oc_p.pairs_both), len(externs)))
         classes = {}
         for _, lab in oc_p.pairs_both:
             k = lab.split(",")[0]
